@@ -270,12 +270,25 @@ def step (stt : Stats) (lineNo : Nat) (line : String) : IO Stats := do
         stt := { stt with maxDepthSeen := max stt.maxDepthSeen r.2.maxDepth }
         match expect r with
         | .skip why =>
+          match Spec.checkAgainstReference id o.min none r.2.maxDepth with
+          | some cl =>
+            IO.println s!"SPECFAIL case={stt.cases} line={lineNo} id={id} clause={cl} obs={clip obs}"
+            stt := { stt with specfails := stt.specfails + 1 }
+          | none => pure ()
           let bump := match stt.skipWhy.find? (·.1 == why) with
             | some _ => stt.skipWhy.map fun p => if p.1 == why then (p.1, p.2 + 1) else p
             | none => (why, 1) :: stt.skipWhy
           return if why == "fuel" then { stt with skippedFuel := stt.skippedFuel + 1, skipWhy := bump }
                  else { stt with skippedUnmodelled := stt.skippedUnmodelled + 1, skipWhy := bump }
         | .exact e =>
+          -- clauses stated against the reference's answer for this program
+          for impl in [o.min, o.full] do
+            if !Spec.isCrash impl && !Spec.isTimeout impl then
+              match Spec.checkAgainstReference id impl (some e) r.2.maxDepth with
+              | some cl =>
+                IO.println s!"SPECFAIL case={stt.cases} line={lineNo} id={id} clause={cl} model={clip e} obs={clip obs}"
+                return { stt with specfails := stt.specfails + 1 }
+              | none => pure ()
           stt := { stt with compared := stt.compared + 1,
                             values := stt.values + (if e.startsWith "v:" then 1 else 0),
                             scriptErrors := stt.scriptErrors + (if e.startsWith "e:" then 1 else 0),
